@@ -340,7 +340,7 @@ def recordLost (w : World) (h : Hyp) (key : String) (before : Option Rec) : Worl
 /-- One visible event. -/
 def step (m : MState) (e : TEv) : MState :=
   -- after `end` the harness tears the scenario down: no obligation is evaluated any more
-  if m.w.ended && (match e.ev with | .gor _ => false | _ => true) then { m with w := { m.w with line := m.w.line + 1, now := e.t } } else
+  if m.w.ended && (match e.ev with | .gor _ => false | .wleft _ => false | _ => true) then { m with w := { m.w with line := m.w.line + 1, now := e.t } } else
   -- (the final goroutine count comes after `end`, when the harness has torn everything down: no deadline applies then)
   let w0 : World := { m.w with line := m.w.line + 1 }
   let w0 := if m.w.ended then w0 else
@@ -348,7 +348,7 @@ def step (m : MState) (e : TEv) : MState :=
   let w0 := { w0 with now := e.t }
   let h := m.hyp
   -- after `end` the harness tears the scenario down (stops every instance); only the final goroutine count matters
-  if m.w.ended && (match e.ev with | .gor _ => false | _ => true) then { m with w := w0 } else
+  if m.w.ended && (match e.ev with | .gor _ => false | .wleft _ => false | _ => true) then { m with w := w0 } else
   match e.ev with
   | .hyp a b c d f ml fe => { m with w := w0, hyp := ⟨a, b, c, d, f, ml, fe⟩ }
   | .inst c => { m with w := { w0 with insts := w0.insts ++ [{ cfg := c }] } }
@@ -505,7 +505,7 @@ def step (m : MState) (e : TEv) : MState :=
           then w.updInst p.inst fun y => { y with orphanTok := some tok } else w
         | _, _, _ => w
       let w := match r, p.kind with
-        | .ok rev _, .create => w.updInst p.inst fun y => { y with lastAckRev := rev, lastAckAt := e.t }
+        | .ok rev _, .create => w.updInst p.inst fun y => { y with lastAckRev := rev, lastAckAt := e.t, lastAcqRev := rev, lastAcqAt := e.t }
         | .ok rev _, .update =>
           -- the heartbeat loop gives up on an attempt after its time-out: an answer that arrives later is discarded (HB model),
           -- so it does not count as the leader's latest acknowledged write; neither does the answer to a write of an earlier
@@ -513,6 +513,7 @@ def step (m : MState) (e : TEv) : MState :=
           let late := match w.inst? p.inst with
             | some x => x.flag && (!isRefresh0 x p || decide (p.issued + hbTimeout x.cfg < e.t))
             | none => false
+          let w := if p.site == "attemptPriorityTakeover" then w.updInst p.inst fun y => { y with lastAcqRev := rev, lastAcqAt := e.t } else w
           if late then w else w.updInst p.inst fun y => { y with lastAckRev := rev, lastAckAt := e.t }
         | .err _, .delete => w.updInst p.inst fun y => { y with lastDeleteFailedAt := some e.t }
         | _, _ => w
@@ -740,11 +741,12 @@ def step (m : MState) (e : TEv) : MState :=
           let mine := match w.live x.cfg.key with
             | some rr => (match rr.val with | .own id _ _ => id == i && rr.writer == i | _ => false)
             | none => false
-          -- "the record's owner": the instance led with that record when the call began, or learnt during the call (an
-          -- acknowledgement that arrived after the call began) that a write of its current run is the live record.
+          -- "the record's owner": the instance led with that record when the call began, or learnt during the call (the
+          -- acknowledgement of an acquiring write that arrived after the call began) that a write of its current run is the
+          -- live record.  (A refresh of a term that ended before the call, answered during it, makes no owner.)
           -- A record left behind by a term that ended before the call (self-demotion, an earlier run) is not owned.
           let ackedMine := match w.live x.cfg.key with
-            | some rr => mine && decide (x.lastAckRev = rr.rev) && decide (a.t ≤ x.lastAckAt) && (match rr.val with | .own _ tok _ => x.runToks.contains tok | _ => false)
+            | some rr => mine && decide (x.lastAcqRev = rr.rev) && decide (a.t ≤ x.lastAcqAt) && (match rr.val with | .own _ tok _ => x.runToks.contains tok | _ => false)
             | none => false
           -- (a Delete that the store refused, lost or did not answer cannot have removed anything)
           let delFailed := match x.lastDeleteFailedAt with | some td => decide (a.t ≤ td) | none => false
@@ -866,6 +868,8 @@ def step (m : MState) (e : TEv) : MState :=
           s!"instance {a.inst}: {repr a.kind} called at {a.t} has not returned at the end of the scenario ({e.t}), time budget {b} ns"
       | none => acc) w
     { m with w := { w with ended := true } }
+  | .wleft n =>
+    { m with w := checkW w0 (n = 0) "C09" "watcher-left-open" s!"{n} watchers obtained from the store were never stopped although every instance was stopped and every goroutine has returned" }
   | .gor n =>
     let w := checkW w0 (n = 0) "C09" "goroutines-left" s!"{n} library goroutines alive after every instance was stopped and all operations returned"
     -- (C13: a goroutine of the library that never comes back - blocked for good after every store operation has been
